@@ -119,9 +119,9 @@ def jobs(tier):
             {"name": "access", "n": 64, "eop": "zero", "kind": "access"},
         ]
     return [
-        {"name": "histories", "n": 240000, "eop": "real", "kind": "histories"},
-        {"name": "histories-const-eop", "n": 40000, "eop": "const", "kind": "histories"},
-        {"name": "failpoints", "n": 120000, "eop": "real", "kind": "failpoints"},
+        {"name": "histories", "n": 160000, "eop": "real", "kind": "histories"},
+        {"name": "histories-const-eop", "n": 24000, "eop": "const", "kind": "histories"},
+        {"name": "failpoints", "n": 80000, "eop": "real", "kind": "failpoints"},
         {"name": "access", "n": 640, "eop": "zero", "kind": "access"},
     ]
 
@@ -130,12 +130,12 @@ def requirements(tier):
     q = tier == "quick"
     req = {f"op:{o}": (100 if q else 2000) for o in OPS}
     req.update({
-        "bystander-checks": 25000 if q else 800000,
-        "copy-identity-checks": 3000 if q else 80000,
+        "bystander-checks": 25000 if q else 500000,
+        "copy-identity-checks": 3000 if q else 60000,
         "poke-checks": 1000,
         "pickle-compared": 200,
         "convert-compared": 300,
-        "fail:injected": 1500 if q else 60000,
+        "fail:injected": 1500 if q else 40000,
         "fail:natural-hill": 100,
         "fail:natural-no-body": 60,
         "fail-site:form-edge": 200,
